@@ -161,8 +161,11 @@ class LoadLog(object):
         # and Data.coords is set to Coordinates or None, we need to set
         # force_coords to True to make sure that we always restore world
         # coordinate components even if the transform is an identity transform.
+        # Note that a file can give several datasets, so we only count the
+        # coordinate components of the first one here.
         n_coords = len([comp for comp in self.components
-                        if isinstance(comp, CoordinateComponent)])
+                        if isinstance(comp, CoordinateComponent) and
+                        (len(self.data) == 0 or comp._data is self.data[0])])
         if n_coords == self.components[0].ndim * 2:
             force_coords = True
         else:
